@@ -42,6 +42,22 @@ GENS = [
 ]
 
 
+def extra(prop, tier, seed):
+    """C02: single-bit mutations of the ALPN-carried request (seeded subset in quick, every bit in thorough);
+    the driver re-projects what was actually sent, so the spec judges the mutated request itself"""
+    import random
+    out = []
+    if prop != "C02":
+        return out
+    rnd = random.Random(seed)
+    bits = list(range(0, 2400)) if tier == "thorough" else sorted(rnd.sample(range(0, 2400), 48))
+    for nidl in (False, True):
+        for ci in range(0, len(bits), 60):
+            ops = [dict(op="Enroll", k="k1"), dict(op="Enroll", k="k2")] + [dict(op="ConnectFlip", k="k1", bit=b) for b in bits[ci:ci + 60]]
+            out.append(dict(id="flip_%s_%d" % ("n" if nidl else "p", ci), cfg=dict(nidl=nidl, base=True, sw=False, regw=False, unix=False, lifeSec=0, certKeys=["k1", "k2", "k3"]), ops=ops))
+    return out
+
+
 def nontrivial(prop, l):
     op = l["op"]["op"]
     if prop == "C02":
@@ -61,7 +77,7 @@ def family_for(prop):
         mc=dict(quick=[("MC_Handshake.tla", "MC_Handshake_q.cfg"), ("MC_Handshake.tla", "MC_Handshake_nonid_q.cfg")],
                 thorough=[("MC_Handshake.tla", "MC_Handshake.cfg"), ("MC_Handshake.tla", "MC_Handshake_nonid.cfg")]),
         witness=dict(quick=[("MC_Handshake.tla", "MC_Handshake_w.cfg", "NeverAuth")], thorough=[("MC_Handshake.tla", "MC_Handshake_w.cfg", "NeverAuth")]),
-        gen=GENS,
+        gen=GENS, extra=extra,
         rule={
             "C02": "TLC-generated histories of enrol / remove / reinitialise-roots interleaved with adversarial clients drawn from the capability product (random, honest, and honest-with-one-capability-changed) executed as real crypto/tls clients against a real InterceptingListener on loopback; non-trivial = Connect/Dial lines; distinct = distinct (client record, result)",
             "C14": "TLC-chosen malformed-input classes x library prefix, concretised with seeded random content (ALPN lists, raw bytes, drops at several handshake stages), each followed later in the behaviour by honest dials; with and without an application registration wrapper",
